@@ -23,6 +23,12 @@ def programs(ctx):
             for rhs_other in (False, True):
                 out.append(fam2.c09_prog("p_%04d" % i, op, False, br, rhs_other, ("bin",), base_assign=True))
                 i += 1
+    # `Self` nested inside path types (Output = Option<Self>, where Option<Self>: ..): must carry over to the derived forms
+    for op in (ops[:2] if ctx.quick else ops):
+        for br in (False, True):
+            for generic in (False, True):
+                out.append(fam2.c09_nested_self_prog("p_%04d" % i, op, br, generic))
+                i += 1
     # the one recorded finding of this property, always re-observed: `Self` in the where-clause of an impl for `&T`
     out.append(fam2.c09_prog("p_%04d" % i, "Sub", True, True, False, ("bin",), generic=True, self_in_where=True))
     return out
